@@ -2,6 +2,7 @@ SPECIFICATION Spec
 CONSTANTS
   MaxSelSoup = 5
   RunLens = {25, 40, 300, 3000}
+  WideLens = {300, 1200, 5000}
   MaxToks = 3
   Depths = {1, 2, 3, 4, 5, 6, 7, 8, 9, 10, 11, 12, 15, 20, 30, 50, 75, 100}
   PairContexts = {"sheet", "after-charset", "import-prelude", "namespace-prelude", "media-prelude", "media-rules", "page-prelude", "page-block", "fontface-block", "variables-block", "unknown-prelude", "unknown-block", "selector", "attrib", "pseudo-arg", "not-arg", "decl-block", "decl-name", "decl-value", "decl-prio", "func-arg", "rgb-arg", "var-arg", "calc-arg", "url-open", "paren", "bracket", "margin-block"}
